@@ -207,6 +207,72 @@ fn chain(b: &mut u64, seed: u64, out: &mut Out, rng: &mut Rng, rounds: u64) {
     }
 }
 
+/// One real client among fake peers on PUBLIC addresses, where BEP42 matters: more than 20 peers with ids that are not
+/// valid for their IP but XOR-close to the target, and a chain of BEP42-secure peers that are XOR-far from it and are
+/// learned one at a time, after the lookup already holds more than 20 candidates. Secure ids order first, so every secure
+/// peer belongs to the closest entries and must be queried and reported.
+fn mixed(b: &mut u64, seed: u64, out: &mut Out, rng: &mut Rng, rounds: u64) {
+    use crate::crypto;
+    use crate::fakenet::*;
+    use crate::krpc;
+    use crate::sim::*;
+    use std::net::Ipv4Addr;
+    for r in 0..rounds {
+        let target = rng.id();
+        let n_insecure = rng.range(21, 30) as usize;
+        let n_secure = rng.range(2, 6) as usize;
+        let mut at: Vec<([u8; 20], SocketAddrV4)> = vec![];
+        // secure chain first (index 0 = bootstrap)
+        for i in 0..n_secure {
+            let ip = Ipv4Addr::new(45 + i as u8, 20 + r as u8, 7, 1 + i as u8);
+            at.push((crypto::bep42_id(ip, rng.id()), SocketAddrV4::new(ip, 6881)));
+        }
+        for i in 0..n_insecure {
+            let ip = Ipv4Addr::new(80 + (i / 200) as u8, 1 + r as u8, 9, 1 + (i % 200) as u8);
+            let mut id = target;
+            for x in id.iter_mut().skip(14) {
+                *x = rng.below(256) as u8;
+            }
+            if crypto::bep42_valid(&id, ip) {
+                id[0] ^= 0x80;
+            }
+            at.push((id, SocketAddrV4::new(ip, 6881)));
+        }
+        let mut sim = Sim::new(seed ^ (r * 41 + 17), NetCfg { lat_min_ms: 5, lat_max_ms: 25, ..Default::default() });
+        sim.record = true;
+        let all = at.clone();
+        let policy: Policy = Box::new(move |me, m, wi| {
+            let q = m.q.clone().unwrap_or_default();
+            let on_target = m.target() == Some(target);
+            let listed: Vec<([u8; 20], SocketAddrV4)> = if !on_target {
+                vec![all[0]]
+            } else if me.idx == 0 {
+                // the bootstrap peer knows the next secure peer and every insecure one
+                std::iter::once(all[1]).chain(all.iter().skip(n_secure).cloned()).collect()
+            } else if me.idx + 1 < n_secure {
+                vec![all[me.idx + 1]]
+            } else {
+                vec![all[me.idx]]
+            };
+            let nodes = krpc::compact_nodes(&listed);
+            let b = match q.as_str() {
+                "find_node" => lookup_reply(&nodes, me, m, wi, &[], false),
+                "get" | "get_peers" | "get_signed_peers" => lookup_reply(&nodes, me, m, wi, &[], true),
+                _ => krpc::response(&m.tid, &me.id, crate::bencode::B::dict(), Some(&wi.from)),
+            };
+            Reply::One(b, 10)
+        });
+        let fnet = FakeNet::install_at(&mut sim, &at, policy);
+        let c = sim.add_node(NodeOpts::client(private_ip(3), &[fnet.bootstrap()[0].clone()]));
+        sim.run_for(2500);
+        let mut net = Net { sim, servers: vec![], clients: vec![c], boot: vec![], spec: NetSpec { servers: at.len(), clients: 1, plan: "public".into(), join: "mixed".into(), dead_bootstrap: 0, seed } };
+        let kind = ["find_node", "closest", "peers"][r as usize % 3];
+        let ev = one_lookup(&mut net, *b, c, kind, target);
+        out.line(&ev);
+        *b += 1;
+    }
+}
+
 pub fn run(args: &Args) -> i32 {
     let seed = args.u64("seed", 1);
     let thorough = args.thorough();
@@ -259,6 +325,7 @@ pub fn run(args: &Args) -> i32 {
     if only.is_none() {
         crafted(&mut b, seed, &mut out, &mut rng, if thorough { 60 } else { 10 });
         chain(&mut b, seed, &mut out, &mut rng, if thorough { 140 } else { 28 });
+        mixed(&mut b, seed, &mut out, &mut rng, if thorough { 90 } else { 18 });
     }
     out.finish();
     if let Some(p) = args.get("summary") {
